@@ -370,7 +370,7 @@ class Unquoter:
                 ctx.instance(rule)
                 acc = s.env.get(self.acc)
                 emitted = acc is not None and acc != ("phi", lid, self.acc)
-                buffered = bool(s.trace)
+                buffered = any(t[0] == "call" for t in s.trace)
                 conds = "; ".join(sorted(show(k)[:60] + "=" + str(v) for k, v in s.facts.items()))[:240]
                 ctx.ob(rule, self.qual, f"loop iteration [{conds}]", emitted or buffered,
                        "an iteration consumes input without emitting it or handing it to the decoder",
